@@ -33,7 +33,7 @@ BUDGET = {"quick": (9_000, 12), "thorough": (1_500_000, 170)}
 WORKERS = {"quick": 2, "thorough": 16}
 REQUIRED = ["a.rdata_name_overrun_followed_by_records", "a.packed_ok", "a.roundtrip_equal", "a.ref_decode_agrees", "b.total", "b.decoded", "b.parse_error", "c.repack_ok", "c.reunpack_equal"]
 RULE = (
-    "case kinds: 35% clause (a) generated well-formed messages (names from ASCII/odd-ASCII/IDN label pools, 63-octet labels, "
+    "case kinds: 35% clause (a) generated well-formed messages (8% of them: a record of a name-bearing type, half SIG/NXT, whose RDATA name is not terminated inside the record, followed by further records with plain owner names; otherwise: names from ASCII/odd-ASCII/IDN label pools, 63-octet labels, "
     "root, names up to 255 octets; types incl. all name-bearing ones and random; TTLs at 0/2^31/2^32-1; RDATA empty, typed, random, "
     "pointer-looking, up to 65535 octets; all header bits); 65% clause (b)+(c) byte strings: reference-encoded messages "
     "(compressed or not, hostile labels), 1-6 random mutations of them, and crafted constructions (pointer chains 1..5000 hops, "
